@@ -1,14 +1,17 @@
 (* C16 - applying the bundle's plain-state changeset to the pre-history plain state yields the
    post-history plain state, for both OriginalValuesKnown settings.
-   Only statements; proofs live in Proofs/BundleProofs.v. *)
+   Only statements; proofs live in Proofs/BundleProofs{,Base,Acct,Lift,Code}.v. *)
 From stdpp Require Import gmap.
 From Coq Require Import ZArith.
-From RevmV Require Import Model.Bundle Spec.BundleSpec Spec.BundleHist Proofs.BundleProofs Proofs.BundleWitness.
+From RevmV Require Import Model.Bundle Spec.BundleSpec Spec.BundleHist Proofs.BundleProofs Proofs.BundleProofsLift
+  Proofs.BundleProofsCode Proofs.BundleWitness.
 Local Open Scope Z_scope.
 
 (* The full-strength statement (DESIGN.md Appendix C).  A history is a list of merge groups of
-   transactions (the grouping is the merge schedule), HistOK = plain_wf p0 and TransOK for every
-   transition.  It is NOT proved in full: see C16_changeset_correct_partial for what is missing. *)
+   transactions (the grouping is the merge schedule), HistOK = plain_wf p0, plain_nocode p0 (the
+   account table holds infos without byte code; without it the clause is false: an account that is
+   touched but not changed is written back without its code, see C16_nocode_needed) and TransOK
+   for every transition.  PROVED below in full: C16_full. *)
 Definition C16_statement : Prop :=
   forall (p0 : plain) (groups : list (list txout)) (retain known : bool),
     HistOK p0 groups ->
@@ -30,20 +33,57 @@ Proof. exact changeset_of_inv. Qed.
 Theorem C16_invariant_empty_bundle : forall p0, bundle_inv bundle_empty p0 p0.
 Proof. exact bundle_inv_empty. Qed.
 
-(* PARTIAL: the full statement with the preservation of the invariant as a hypothesis.  Missing:
-   HistOK p0 groups -> bundle_of retain groups = Some b -> bundle_inv b p0 (plain_after p0 groups),
-   i.e. TransitionAccount::update keeps the merged transition consistent with the plain states at
-   the ends of the group, and BundleAccount::update_and_create_revert preserves acct_inv for the
-   bundle statuses {absent, InMemoryChange, Changed, Destroyed, DestroyedChanged, DestroyedAgain} x
-   transition statuses {InMemoryChange, Changed, Destroyed, DestroyedChanged, DestroyedAgain} (no
-   cell proved), and the absence of `unreachable!` panics; contracts_cover.  These are covered by
-   the correspondence run only (model = code and oracle on every generated history). *)
-Theorem C16_changeset_correct_partial :
+(* Preservation, for ALL TransOK histories and ALL merge schedules, both BundleRetention settings:
+   the model never hits an `unreachable!` (bundle_of is defined) and the bundle it builds satisfies
+   the invariant w.r.t. (pre-state, post-history state).  Proof: TransitionAccount::update keeps
+   the transition accumulated for an address consistent with the plain states at the two ends of
+   the group (Proofs/BundleProofsBase.v, mt_merge); BundleAccount::update_and_create_revert / the
+   insertion of an unknown address preserve the per-account invariant in every reachable cell
+   bundle status {absent: LoadedNotExisting, Loaded, LoadedEmptyEIP161, InMemoryChange, Changed,
+   Destroyed, DestroyedAgain; present: InMemoryChange, Changed, Destroyed, DestroyedChanged,
+   DestroyedAgain} x merged transition status {InMemoryChange, Changed, Destroyed,
+   DestroyedChanged (wiped or not), DestroyedAgain} (Proofs/BundleProofsAcct.v, acct_step);
+   the loop over addresses is a per-key merge (Proofs/BundleProofsLift.v, binv_group); induction
+   over the groups (binv_history). *)
+Theorem C16_invariant_preserved :
+  forall (p0 : plain) (groups : list (list txout)) (retain : bool),
+    HistOK p0 groups ->
+    exists b, bundle_of retain groups = Some b /\ bundle_inv b p0 (plain_after p0 groups).
+Proof. exact bundle_preservation. Qed.
+
+(* C16 for all histories, schedules, retention and OriginalValuesKnown settings *)
+Theorem C16_changeset_correct :
+  forall (p0 : plain) (groups : list (list txout)) (retain known : bool),
+    HistOK p0 groups ->
+    exists b, bundle_of retain groups = Some b /\
+      plain_equiv (apply_changeset (to_plain_state b known) p0) (plain_after p0 groups).
+Proof. exact changeset_correct. Qed.
+
+(* contracts: every account of the post-history state with real code whose hash is not the hash
+   the address had in the pre-state finds its code in the changeset (Proofs/BundleProofsCode.v:
+   the merged transition carries the code whenever its hash differs from the previous info's) *)
+Theorem C16_contracts_cover :
   forall (p0 : plain) (groups : list (list txout)) (retain known : bool) (b : bundle),
-    bundle_of retain groups = Some b ->
-    bundle_inv b p0 (plain_after p0 groups) ->
-    plain_equiv (apply_changeset (to_plain_state b known) p0) (plain_after p0 groups).
-Proof. intros p0 groups retain known b _ H. apply changeset_of_inv, H. Qed.
+    HistOK p0 groups -> bundle_of retain groups = Some b ->
+    contracts_cover (to_plain_state b known) p0 (plain_after p0 groups).
+Proof. exact contracts_correct. Qed.
+
+(* the full-strength statement *)
+Theorem C16_full : C16_statement.
+Proof. exact changeset_full. Qed.
+
+(* plain_nocode p0 cannot be dropped: account 1 carries its code in the pre-state and is touched
+   without being changed; the bundle omits it, so the changeset leaves the pre-state info (with
+   code) where the post-history state has the info without code (plain_step / the database write
+   infos without code) *)
+Example C16_nocode_needed :
+  plain_wf p7 /\ hist_ok (h0 p7) (flat w7) = true /\
+  exists b, bundle_of true w7 = Some b /\
+    acc_get (apply_changeset (to_plain_state b true) p7) 1 <> acc_get (plain_after p7 w7) 1.
+Proof.
+  split; [exact p7_wf|]. split; [vm_compute; reflexivity|].
+  exists (bof w7). split; [apply bof_some; vm_compute; reflexivity|]. vm_compute. discriminate.
+Qed.
 
 (* non-vacuity: HistOK is satisfiable by non-trivial histories (creation, write back to the
    original value, touch of an empty account, destroy / re-create, create+destroy in one group),
@@ -51,12 +91,7 @@ Proof. intros p0 groups retain known b _ H. apply changeset_of_inv, H. Qed.
 Example C16_histok_satisfiable :
   HistOK p5 w5 /\ is_Some (bundle_of true w5) /\ HistOK pe (w2a ++ w2b) /\ HistOK pe (w4a ++ w4b).
 Proof.
-  assert (Hp5 : plain_wf p5).
-  { intros a k Ha. unfold stor_get. destruct (p_stor p5 !! a) as [m|] eqn:E; [|reflexivity].
-    unfold p5 in *; simpl in *.
-    destruct (decide (a = 5)) as [->|Hne].
-    - vm_compute in Ha. discriminate.
-    - rewrite lookup_insert_ne in E by congruence. rewrite lookup_empty in E. discriminate. }
-  repeat split; try exact Hp5; try exact pe_wf; try (vm_compute; reflexivity).
+  repeat split; try exact p5_wf; try exact pe_wf; try exact pe_nocode; try exact p5_nocode;
+    try (vm_compute; reflexivity).
   exists (bof w5). apply bof_some. vm_compute. reflexivity.
 Qed.
